@@ -65,6 +65,14 @@ class Inputs:
                 '  <units name="u">%s</units>\n  <component name="c">\n    <variable name="x" units="u"/>\n    <variable name="y" units="u" initial_value="1"/>\n'
                 '    <math xmlns="http://www.w3.org/1998/Math/MathML">\n      <apply><eq/><ci>x</ci><apply><plus/><ci>y</ci><cn cellml:units="u">3</cn></apply></apply>\n    </math>\n  </component>\n</model>\n' % udef,
                 'system', analysable=True)
+        # documents without any units issue whose equations read differently in the C and in the Python profile
+        self.eqdocs = []
+        for rhs in ('<apply><and/><ci>y</ci><apply><abs/><ci>y</ci></apply></apply>',
+                    '<piecewise><piece><pi/><apply><gt/><ci>y</ci><cn cellml:units="dimensionless">1</cn></apply></piece><otherwise><apply><arccos/><ci>y</ci></apply></otherwise></piecewise>'):
+            self.eqdocs.append(len(self.docs))
+            add('<?xml version="1.0" encoding="UTF-8"?>\n<model xmlns="http://www.cellml.org/cellml/2.0#" xmlns:cellml="http://www.cellml.org/cellml/2.0#" name="eq">\n'
+                '  <component name="c">\n    <variable name="x" units="dimensionless"/>\n    <variable name="y" units="dimensionless" initial_value="1"/>\n'
+                '    <math xmlns="http://www.w3.org/1998/Math/MathML">\n      <apply><eq/><ci>x</ci>%s</apply>\n    </math>\n  </component>\n</model>\n' % rhs, 'system', analysable=True)
         self.worlds = []
         for i in range(max(2, n // 3)):
             md = MO.gen(rng)
@@ -125,6 +133,8 @@ def run(chk, replay=None):
                 return pre + ['analyse %d %d' % (slots['analyser'], mslot)], sym + ['a1' if d['math'] else 'a0'], n0
             if kind == 'generate':
                 return pre + ['analyse %d %d' % (slots['analyser'], mslot), 'generate %d %d %s' % (slots['generator'], slots['analyser'], 'C')], sym + ['a1' if d['math'] else 'a0', 'o'], n0 + 1
+            if kind in ('eqcode', 'eqcodepy'):
+                return pre + ['analyse %d %d' % (slots['analyser'], mslot), 'eqcode %d %s' % (slots['analyser'], 'D' if kind == 'eqcode' else 'PY')], sym + ['a1' if d['math'] else 'a0', 'o'], n0 + 1
             if kind == 'generatex':
                 cv = ('nosuch', 'nosuch')
                 for cm in re.finditer(r'<component name="(\w+)">(.*?)</component>', d['text'], re.S):
@@ -134,10 +144,10 @@ def run(chk, replay=None):
                 return pre + ['analysex %d %d %s %s' % (slots['analyser'], mslot, cv[0], cv[1]), 'generate %d %d %s' % (slots['generator'], slots['analyser'], 'C')], sym + ['a1' if d['math'] else 'a0', 'o'], n0 + 1
             raise ValueError(kind)
         def random_step():
-            kind = rng.choice(['parse', 'parse', 'parsep', 'print', 'print', 'validate', 'validate', 'analyse', 'analyse', 'generate', 'generate', 'generatex', 'generatex', 'flatten'])
+            kind = rng.choice(['parse', 'parse', 'parsep', 'print', 'print', 'validate', 'validate', 'analyse', 'analyse', 'generate', 'generate', 'generatex', 'generatex', 'flatten', 'eqcode', 'eqcode', 'eqcodepy'])
             if kind == 'flatten':
                 return kind, rng.randrange(len(inp.worlds))
-            pool = [k for k, d in enumerate(inp.docs) if (kind != 'parse' or not d['permissive']) and (kind not in ('analyse', 'generate', 'generatex') or d['kind'] in ('system', 'doc', 'invalid')) and (kind != 'generatex' or d['kind'] == 'system')]
+            pool = [k for k, d in enumerate(inp.docs) if (kind != 'parse' or not d['permissive']) and (kind not in ('analyse', 'generate', 'generatex', 'eqcode', 'eqcodepy') or d['kind'] in ('system', 'doc', 'invalid')) and (kind != 'generatex' or d['kind'] == 'system')]
             return kind, rng.choice(pool)
         news = lambda base: ['new %s %d' % (s, base) for s in SERVICES]
         ref_cache = {}
@@ -163,7 +173,7 @@ def run(chk, replay=None):
             prefix = [random_step() for _ in range(rng.randint(2, 8))]
             if target[0] not in ('parse', 'parsep', 'flatten'):
                 # other services on the very input of the target, so that the same model object is met again
-                for kk in rng.sample(['print', 'validate', 'analyse', 'generate', 'generatex'], 2):
+                for kk in rng.sample(['print', 'validate', 'analyse', 'generate', 'generatex', 'eqcodepy'], 2):
                     if kk != 'generatex' or inp.docs[target[1]]['kind'] == 'system':
                         prefix.insert(rng.randrange(len(prefix) + 1), (kk, target[1]))
             plan = [(s, 0) for s in prefix] + [(target, 0), (target, 0), (target, 1)]
@@ -174,6 +184,15 @@ def run(chk, replay=None):
                 kind = rng.choice(['analyse', 'analyse', 'validate', 'print', 'generate'])
                 target = (kind, i1)
                 prefix = [random_step() for _ in range(rng.randint(0, 2))] + [(kind, i0)] + [random_step() for _ in range(rng.randint(0, 2))]
+                plan = [(s_, 0) for s_ in prefix] + [(target, 0), (target, 0), (target, 1)]
+                shared = {} if rng.random() < 0.5 else None
+            if trial % 4 == 2:
+                # the static Generator::equationCode with the default profile after a call with an explicit profile (and after
+                # analyses, which ask for equation code with a profile of their own when they report issues)
+                systems = [k for k, d in enumerate(inp.docs) if d['kind'] in ('system', 'doc', 'invalid')]
+                i0, i1 = rng.choice(inp.eqdocs + [rng.choice(systems)]), rng.choice(systems)
+                target = ('eqcode', i0)
+                prefix = [random_step() for _ in range(rng.randint(0, 2))] + [('eqcodepy', i1)] + [random_step() for _ in range(rng.randint(0, 1))]
                 plan = [(s_, 0) for s_ in prefix] + [(target, 0), (target, 0), (target, 1)]
                 shared = {} if rng.random() < 0.5 else None
             if trial % 4 == 0:
